@@ -48,7 +48,7 @@ func vRemoveObserver(n int) {
 }
 
 func VerifC08_RemoveObserver2()  { vRemoveObserver(2) }
-func VerifC08T_RemoveObserver3() { vRemoveObserver(3) }
+func VerifC08T_RemoveObserver3() { vNoMul = true; vRemoveObserver(3) }
 
 // AddObserver onto an arbitrary valid manager holding one observer of the same type.
 func VerifC08_AddObserver() {
@@ -252,8 +252,8 @@ func vBatchDispatch(add bool, nObs int) {
 }
 func VerifC08_BatchDispatchAdd()      { vBatchDispatch(true, 1) }
 func VerifC08_BatchDispatchRemove()   { vBatchDispatch(false, 1) }
-func VerifC08T_BatchDispatchAdd2()    { vBatchDispatch(true, 2) }
-func VerifC08T_BatchDispatchRemove2() { vBatchDispatch(false, 2) }
+func VerifC08T_BatchDispatchAdd2()    { vNoMul = true; vBatchDispatch(true, 2) }
+func VerifC08T_BatchDispatchRemove2() { vNoMul = true; vBatchDispatch(false, 2) }
 
 // ---- C08-H3 (set relations): observers of specific relation components fire iff ALL
 // their observed relations are in the set of relations whose target actually changed in
@@ -338,10 +338,17 @@ func VerifC08_BatchOpsSingleObserver() {
 			strangers++
 		}
 	}).Register(W.w)
-	op := vPick("batch-op", 4)
+	op := vPick("batch-op", 5)
 	var want [vNE]int
 	for j := 0; j < W.n; j++ {
 		m := &W.e[j]
+		if op == 4 { // remove every entity with A: plain archetypes (created first) and relation archetypes mixed
+			if m.alive && m.has[cA] && (sp.evt == OnRemoveEntity ||
+				(sp.evt == OnRemoveRelations && ((sp.c == -1 && (m.has[cR1] || m.has[cR2])) || (sp.c == cR1 && m.has[cR1]) || (sp.c == cR2 && m.has[cR2])))) {
+				want[j] = 1
+			}
+			continue
+		}
 		if !m.alive || !m.has[cR1] {
 			continue
 		}
@@ -375,6 +382,8 @@ func VerifC08_BatchOpsSingleObserver() {
 			NewMap1[vVel](W.w).AddBatch(NewFilter1[vChild](W.w).Without(C[vVel]()).Batch(), &vVel{9})
 		case 3:
 			NewMap1[vPos](W.w).RemoveBatch(NewFilter2[vChild, vPos](W.w).Batch(), nil)
+		case 4:
+			W.w.RemoveEntities(NewFilter1[vPos](W.w).Batch(), nil)
 		}
 	}))
 	ok := true
